@@ -25,7 +25,7 @@ A2SYM = {'add': '+', 'sub': '-', 'mul': '*', 'div': '/'}
 
 def children(f):
     op = f[0]
-    if op in ('var', 'const'):
+    if op in ('var', 'const', 'ref'):
         return []
     if op in ('a1',):
         return [f[2]]
@@ -44,7 +44,7 @@ def children(f):
 
 def rebuild(f, kids):
     op = f[0]
-    if op in ('var', 'const'):
+    if op in ('var', 'const', 'ref'):
         return f
     if op == 'a1':
         return ('a1', f[1], kids[0])
@@ -109,6 +109,8 @@ def to_text(f, bound=None):
     t = lambda g: to_text(g, bound)
     if op == 'var':
         return VARS[f[1]]
+    if op == 'ref':
+        return f[1]
     if op == 'const':
         return num(f[1])
     if op == 'a1':
